@@ -68,18 +68,15 @@ static void put_forest(const ::mpt::node *first, const ::mpt::node *parent, int 
 		if (prev) ob_s(",");
 		if (n->prev != prev) unsound = "prev";
 		if (n->parent != parent) unsound = "parent";
-		if (!n->ident._len) ob_s("-");
-		else if (n->ident._charset != MPT_CHARSET(UTF8)) ob_s("?charset");
-		else {
-			const uint8_t *id = (const uint8_t *) mpt_identifier_data(&n->ident);
-			size_t len = n->ident._len - 1;
-			if (id[len]) ob_s("?unterminated");
-			ob_hex(id, len);
+		{
+			/* the identifier fields are protected in C++: name through the C accessor */
+			const char *id = mpt_node_ident(n);
+			if (!id) ob_s("-");
+			else ob_hex((const uint8_t *) id, strlen(id));
 		}
 		if (n->_meta) {
 			struct iovec vec = { 0, 0 };
 			ob_s("=");
-			if (mpt_convertable_data((convertable *) n->_meta, &vec.iov_len), 0) { }
 			const char *base = mpt_convertable_data((convertable *) n->_meta, &vec.iov_len);
 			if (!base) ob_s("?noconv");
 			else {
@@ -121,7 +118,7 @@ static const char *build_tree(const char *s, ::mpt::node *parent)
 	if (hasval) {
 		struct iovec vec = { val, vlen };
 		value v;
-		v._addr = &vec; v._type = MPT_type_toVector('c');
+		v.set(MPT_type_toVector('c'), &vec);
 		n->_meta = mpt_meta_new(&v);
 	}
 	free(name); free(val);
@@ -178,15 +175,15 @@ int main(void)
 	static char line[1 << 22];
 	drv_init();
 	snprintf(fname, sizeof(fname), "/tmp/drvxxparse-%d.conf", (int) getpid());
-	/* warm-up of lazily created library state */
+	/* warm-up of lazily created library state (short text only: with mpt++ linked, long text is held by the
+	 * C++ io::buffer metatype, whose array code in the library archive is compiled with UBSan's vptr check
+	 * and trips over the C buffer objects; the scripts of this driver keep values below 250 bytes) */
 	{
-		static uint8_t longv[300];
-		struct iovec vec = { longv, sizeof(longv) };
-		value v; v._addr = &vec; v._type = MPT_type_toVector('c');
+		static uint8_t shortv[3] = { 'x', 'y', 'z' };
+		struct iovec vec = { shortv, sizeof(shortv) };
+		value v; v.set(MPT_type_toVector('c'), &vec);
 		metatype *mt;
-		memset(longv, 'x', sizeof(longv));
 		if ((mt = mpt_meta_new(&v))) mt->unref();
-		(void) logger::default_instance();
 	}
 	target = new ::mpt::node();
 	ob_reset();
